@@ -24,7 +24,7 @@ SPECS = {
     "spec_C17": "(if spec_C17 c wm h then 0%Z else 2%Z)",
     "spec_C04": "(spec_C04_code_h (map fst h) c wm (snd (last h (None, empty_view))))",
     "spec_C14_stacks": "(if spec_C14_stacks c h then 0%Z else 2%Z)",
-    "spec_C19_defs": "(if spec_C19_defs c h then 0%Z else 2%Z)",
+    "spec_C19_defs": "(spec_C19_defs_code c h)",
     "spec_C03_selection": "(spec_C03_selection_code c wm h)",
     "spec_C18_registered": "(if spec_C18_registered c wm h then 0%Z else 2%Z)",
     "spec_C18_introspection": "(if spec_C18_introspection h then 0%Z else 2%Z)",
@@ -64,7 +64,9 @@ def source_of(case):
 
 
 # a second known-finding class of a spec (code 3)
-SECOND_CLASS = {"spec_C04": "kf_C04_accessor_gap"}
+SECOND_CLASS = {"spec_C04": "kf_C04_accessor_gap", "spec_C19_defs": "kf_C04_accessor_gap"}
+# a third one (code 4)
+THIRD_CLASS = {"spec_C04": "kf_C04_copy_shadows"}
 
 
 def run(out, build, problems, prop, tier, specs, gen_cases, nquick, nthorough, rule, replay=None, known=None):
@@ -116,17 +118,20 @@ def run(out, build, problems, prop, tier, specs, gen_cases, nquick, nthorough, r
                 known_hits[s] += 1
             elif code[1 + i] == 3:
                 known_hits[s + "#2"] += 1
+            elif code[1 + i] == 4:
+                known_hits[s + "#3"] += 1
             if code[1 + ns + i] == 2:
                 model_fail.append((s, c, o))
     kf = C.load_known_findings()
     listed = {f["id"]: f for f in kf.get("findings", []) if f["property"] == prop}
     for s, n in known_hits.items():
-        fid = (known or {}).get(s) if not s.endswith("#2") else SECOND_CLASS.get(s[:-2])
+        fid = (THIRD_CLASS.get(s[:-2]) if s.endswith("#3") else SECOND_CLASS.get(s[:-2]) if s.endswith("#2")
+               else (known or {}).get(s))
         if fid and fid in listed:
             out.known_finding("%s (%d histories in the class on this run)" % (listed[fid]["what"], n))
         else:
-            want = 3 if s.endswith("#2") else 1
-            s = s[:-2] if s.endswith("#2") else s
+            want = 4 if s.endswith("#3") else (3 if s.endswith("#2") else 1)
+            s = s[:-2] if s.endswith(("#2", "#3")) else s
             c, o = next((c, o) for (c, o), code in zip(live, codes) if code[1 + specs.index(s)] == want)
             out.violation("%s differs from the declared contracts in a class that is not a listed finding" % s,
                           {"case": c, "observation": strip(o), "script": source_of(c)})
